@@ -308,7 +308,12 @@ func pageCopyParts(c *Ctx, rule string, lockOnly bool, fname string, root *ssa.F
 	name := fnName(root)
 	c.floorBegin()
 	defer c.floorEnd()
-	for _, fn := range deepFuncs(root) {
+	var parts []*ssa.Function
+	for _, f0 := range deepFuncs(root) {
+		// closures too: a dense loop moved into a local func literal is still a dense loop
+		parts = append(parts, withClosures(f0)...)
+	}
+	for _, fn := range parts {
 		loops := naturalLoops(fn)
 		counted := countedLoops(fn)
 		c.floor(rule, len(counted), 1, "dense page loop in "+name)
